@@ -4,6 +4,8 @@
 From GK Require Import PropCheck.
 From GK.Proofs Require Import BaseLemmas RepoProofs RecoverProofs.
 From GK.Proofs Require PredProofs RepoProofs2.
+From GK Require SrcFacts.
+From GK.Proofs Require SrcProofs.
 
 (* revert: exactly the dispatched-unfinished tasks change, to scheduled with dispatched_at cleared *)
 Theorem C13_revert_spec : forall id s, lookup id (map undispatch s) = omap undispatch (lookup id s).
@@ -65,3 +67,28 @@ Theorem C13_observed_state_is_model_state : forall (c : cfg) (s : repo) (o : op)
   wf_repo s -> op_ok s o -> obs_next s o (RepoProofs2.model_obs c s o) = fst (step c s o).
 Proof. exact PredProofs.obs_next_model. Qed.
 Print Assumptions C13_observed_state_is_model_state.
+
+(* ---- the mechanism, re-extracted from the Go source on every run (tools/go2coq -> obligation
+   `rec_discipline_ok ent_recovery_facts = true`): RevertDispatched and CancelDispatched are each ONE UPDATE, guarded by
+   state = dispatched, setting exactly the specification's target state, with the stamp handling the specification has
+   (revert clears dispatched_at: F2; cancel stamps cancelled_at), and never read the rows first *)
+Theorem C13_recovery_is_one_guarded_update : forall fs, SrcFacts.rec_discipline_ok fs = true ->
+  forall n, In n SrcFacts.rec_methods ->
+  exists f g y req pre, In f fs /\ SrcFacts.ef_name f = n /\ SrcFacts.rec_edge n = Some (g, y, req)
+    /\ SrcFacts.prefix_to_exec (SrcFacts.ef_events f) = Some pre
+    /\ ~ In SrcFacts.EvRead (SrcFacts.ef_events f)
+    /\ SrcFacts.guards_of (SrcFacts.ef_events f) = [g] /\ SrcFacts.sets_of (SrcFacts.ef_events f) = [y]
+    /\ (forall r, In r req -> exists e, In e pre /\ SrcFacts.ev_eqb r e = true).
+Proof. exact SrcProofs.rec_discipline_meaning. Qed.
+Print Assumptions C13_recovery_is_one_guarded_update.
+
+(* the table those facts are compared with is the specification's *)
+Theorem C13_recovery_table_is_the_models :
+  (forall t, state_eqb (t_state t) Dispatched = true ->
+     t_state (undispatch t) = Scheduled /\ t_dispatched (undispatch t) = None /\ t_cancelled (undispatch t) = t_cancelled t)
+  /\ (forall t, state_eqb (t_state t) Dispatched = false -> undispatch t = t)
+  /\ (forall now t, state_eqb (t_state t) Dispatched = true ->
+     t_state (cancel_if_dispatched now t) = Cancelled /\ t_cancelled (cancel_if_dispatched now t) = Some (norm now))
+  /\ (forall now t, state_eqb (t_state t) Dispatched = false -> cancel_if_dispatched now t = t).
+Proof. exact SrcProofs.rec_edge_is_the_models. Qed.
+Print Assumptions C13_recovery_table_is_the_models.
